@@ -6,6 +6,11 @@ R12.2  precedence soundness: no printer slot that is the right operand of `/` ca
        top level is an unparenthesised `*` or `/`.
 R12.3  printing is a function of the value: no hash-ordered iteration reaches printed text.
 R12.4  sign convention of hoisted intervention subscripts agrees between printer and parser default.
+R12.7  y0 printers stay in the y0 notation: a slot of a to_y0 text filled by to_text()/to_latex() is accepted only where both notations coincide
+       for every class the receiver may have.
+R12.6  products built by `*` are flat: parsing "a * b * c" multiplies from the left and yields ONE flat, sorted Product, so an object
+       built by the operators can equal its own re-parse only if no `__mul__` branch hands Product.safe an operand that may itself be
+       a Product without spreading its factors.
 """
 
 from __future__ import annotations
@@ -38,14 +43,14 @@ class Printers:
         self.cache: dict = {}
         self.evs: dict = {}
 
-    def templates(self, K: Cls, kwargs: tuple = ()) -> list[Tmpl]:
-        key = (K.qname, kwargs)
+    def templates(self, K: Cls, kwargs: tuple = (), method: str = "to_y0") -> list[Tmpl]:
+        key = (K.qname, kwargs) if method == "to_y0" else (K.qname, kwargs, method)
         if key in self.cache:
             return self.cache[key]
-        f = K.find_method("to_y0")
+        f = K.find_method(method)
         if f is None:
-            raise AnalysisError(f"{K.name} has no to_y0")
-        ev = Evaluator(self.model, prim_methods={"to_y0"}, primitives={f"{DSL}._sort_interventions"})
+            raise AnalysisError(f"{K.name} has no {method}")
+        ev = Evaluator(self.model, prim_methods={"to_y0"} | ({method} if method != "to_y0" else set()), primitives={f"{DSL}._sort_interventions"})
         slf = typed(ev, "self", ("cls", K.qname))
         args = {k: v for k, v in kwargs}
         out = []
@@ -74,6 +79,8 @@ class Printers:
                 return go(t[1])
             if h == "meth" and t[2] == "to_y0":
                 return ph({"kind": "expr", "src": t[1], "kwargs": t[4]})
+            if h == "op" and t[1] == "+" and len(t) == 4:
+                return go(t[2]) + go(t[3])  # text + text
             if h == "meth" and t[2] == "join" and t[1][0] == "const" and t[3]:
                 sep = t[1][1]
                 arg = t[3][0]
@@ -240,7 +247,7 @@ def run(model: Model, rep: Report, tier: str) -> None:
         "round trip beyond these necessary conditions."
     )
     rep.trusted_base = ["Python operator precedence as implemented by ast.parse", "eval() of the printed text against LOCALS"]
-    rep.floors = {"R12.1": 6, "R12.2": 10, "R12.3": 20, "R12.4": 3, "R12.5": 1}
+    rep.floors = {"R12.1": 6, "R12.2": 10, "R12.3": 20, "R12.4": 3, "R12.5": 1, "R12.6": 4, "R12.7": 8}
     # ------------------------------------------------------------------ R12.5 hoisting of subscripts
     from ..refcmp import load_reference, run_table
     from ..setalg import SetAlg
@@ -255,6 +262,8 @@ def run(model: Model, rep: Report, tier: str) -> None:
     dsl = model.modules["y0.dsl"]
     classes = {n: model.cls(f"{DSL}.{n}") for n in PRINTED}
     exprs = concrete_expression_classes(model)
+    _products_flat(model, rep, exprs)
+    _printer_family(model, rep, pr, classes)
     # ------------------------------------------------------------------ R12.1
     pm, table = _fold_locals(model)
     heads: dict[str, list] = {}
@@ -421,6 +430,164 @@ def run(model: Model, rep: Report, tier: str) -> None:
     f = model.func(f"{DSL}._to_interventions")
     (rep.proven if default_star is False else rep.refuted)("R12.4", construct(f, "bare-name-default"),
                                                            "" if default_star is False else f"bare subscript names default to star={default_star}", loc(f))
+
+
+FOREIGN_PRINTERS = ("to_text", "to_latex", "_repr_latex_")
+
+
+def _printer_family(model: Model, rep: Report, pr: "Printers", classes) -> None:
+    """R12.7: a to_y0 printer fills its slots with to_y0 texts.  A slot filled by another notation's printer (to_text, to_latex) is accepted only if,
+    for every class the receiver may have, that printer and to_y0 have the same templates (co-inductively through their own slots)."""
+    from ..terms import alpha_normalise, mapterm
+
+    def concrete(recv, ev, sl=None):
+        typ = ev.typeof(recv)
+        if typ is None and sl is not None and sl.get("pat") == recv and sl.get("src") is not None:
+            typ = ev.elem_type(sl["src"])  # the element of the list this slot prints
+        if not (isinstance(typ, tuple) and typ and typ[0] == "cls"):
+            return None
+        c = model.classes.get(typ[1])
+        if c is None:
+            return None
+        return [k for k in [c] + list(c.all_subclasses()) if k.find_method("to_y0") is not None and not getattr(k, "is_abstract", False)]
+
+    def norm_slot(s_, foreign):
+        def f(t):
+            if t[0] == "meth" and t[2] == foreign:
+                return ("meth", t[1], "to_y0") + tuple(t[3:])
+            return None
+        out = {k: (alpha_normalise(mapterm(v, f)) if isinstance(v, tuple) and v and isinstance(v[0], str) else v) for k, v in s_.items() if k != "id"}
+        return out
+
+    memo: dict = {}
+
+    def equiv(D: Cls, foreign: str) -> str | None:
+        """None if D.<foreign>() and D.to_y0() print the same text for every value, else a description of the first difference"""
+        key = (D.qname, foreign)
+        if key in memo:
+            return memo[key]
+        memo[key] = None  # co-inductive hypothesis
+        if D.find_method(foreign) is None:
+            memo[key] = f"{D.name} has no {foreign}"
+            return memo[key]
+        try:
+            a, b = pr.templates(D), pr.templates(D, (), foreign)
+        except Exception as e:  # noqa: BLE001
+            memo[key] = f"{D.name}.{foreign} could not be read ({type(e).__name__})"
+            return memo[key]
+        why = None
+        if len(a) != len(b):
+            why = f"{D.name}.to_y0 has {len(a)} forms, {D.name}.{foreign} has {len(b)}"
+        else:
+            for ta, tb in zip(a, b):
+                if ta.skeleton != tb.skeleton:
+                    why = f"{D.name}.to_y0 prints `{ta.skeleton}` where {D.name}.{foreign} prints `{tb.skeleton}`"
+                    break
+                if [norm_slot(x, foreign) for x in ta.slots] != [norm_slot(x, foreign) for x in tb.slots]:
+                    why = f"{D.name}.to_y0 and {D.name}.{foreign} fill `{ta.skeleton}` differently"
+                    break
+                evb = pr.evs[(D.qname, (), foreign)][0]
+                for sl in tb.slots:
+                    for q in subterms((sl.get("src"), sl.get("elt"))):
+                        if q[0] == "meth" and q[2] == foreign:
+                            for D2 in concrete(q[1], evb, sl) or []:
+                                w2 = equiv(D2, foreign)
+                                if w2:
+                                    why = w2
+                                    break
+                        if why:
+                            break
+                    if why:
+                        break
+                if why:
+                    break
+        memo[key] = why
+        return why
+
+    for n, K in classes.items():
+        f = K.find_method("to_y0")
+        if f is None or f.cls is not K:
+            continue
+        for kw in ((), (("parens", const(False)),)) if n == "Fraction" else ((),):
+            try:
+                ts = pr.templates(K, kw)
+            except Exception:  # noqa: BLE001
+                continue
+            ev = pr.evs[(K.qname, kw)][0]
+            problems, n_slots = [], 0
+            for t in ts:
+                for sl in t.slots:
+                    n_slots += 1
+                    for q in subterms((sl.get("src"), sl.get("elt"))):
+                        if q[0] == "meth" and q[2] in FOREIGN_PRINTERS:
+                            poss = concrete(q[1], ev, sl)
+                            if poss is None:
+                                problems.append(f"`{t.skeleton}`: a slot is filled by {short(show(q), 60)}, another notation's printer, on a receiver of unknown class")
+                                continue
+                            for D in poss:
+                                w = equiv(D, q[2])
+                                if w:
+                                    problems.append(f"`{t.skeleton}`: a slot is filled by {short(show(q), 60)} -- the {q[2]} notation, not y0's: {w}; parse_y0 of the printed text "
+                                                    f"fails or reads something else")
+                                    break
+            cons = construct(f, f"y0-family:{n}" + (":noparens" if kw else ""))
+            if problems:
+                rep.refuted("R12.7", cons, "; ".join(sorted(set(problems))[:2]), loc(f))
+            else:
+                rep.proven("R12.7", cons, loc=loc(f), sample={"slots read": n_slots}, nontrivial=n_slots > 0)
+
+
+def _products_flat(model: Model, rep: Report, exprs) -> None:
+    from .dslcommon import DSL_PRIMS
+    from ..symeval import dnf_paths
+    done = set()
+    for K in exprs:
+        for opname in ("__mul__", "__rmul__"):
+            f = K.find_method(opname)
+            if f is None or f.cls is None or len(f.params) < 2:
+                continue
+            ev = Evaluator(model, primitives=set(DSL_PRIMS), prim_methods={"__mul__", "__truediv__", "__rmul__"})
+            slf = typed(ev, "self", ("cls", K.qname))
+            oth = typed(ev, f.params[1], ("cls", EXPR))
+            try:
+                paths = return_paths(dnf_paths(ev.run(f, {f.params[1]: oth}, self_term=slf)))
+            except Exception:  # noqa: BLE001
+                continue  # the operator table itself is C13's obligation
+            cons = construct(f, f"flat:{K.name}")
+            if cons in done:
+                continue
+            done.add(cons)
+            problems, n_built = [], 0
+            for p in paths:
+                if ev.infeasible(p.conds):
+                    continue
+                v = p.value
+                if not (v[0] == "call" and str(v[1]).endswith("Product.safe")):
+                    continue
+                seq = dict(v[3]).get("expressions", v[2][0] if v[2] else None)
+                while seq is not None and seq[0] == "call" and seq[1] in ("tuple", "list") and len(seq[2]) == 1:
+                    seq = seq[2][0]
+                if seq is None or seq[0] not in ("tuplelit", "listlit"):
+                    continue
+                n_built += 1
+                for x in seq[1]:
+                    if x[0] == "star":
+                        continue
+                    if x == slf:
+                        poss = [K]
+                    elif x == oth:
+                        poss = classes_consistent(model, exprs, p.conds, oth)
+                    else:
+                        continue
+                    if any(k.is_subclass_of("Product") for k in poss):
+                        which = "the left operand" if x == slf else "the right operand"
+                        problems.append(f"line {p.line}: {which} may be a Product and is passed to Product.safe as ONE factor (Product.safe removes ones and sorts, it does not "
+                                        f"flatten): {K.name} * (b * c) is stored as a product inside a product, prints as `a * b * c`, and that text parses to the flat "
+                                        f"product -- parse_y0(str(e)) != e for a division-free e")
+            if problems:
+                rep.refuted("R12.6", cons, "; ".join(sorted(set(problems))[:2]), loc(f))
+            elif n_built:
+                rep.proven("R12.6", cons, loc=loc(f), sample={"Product.safe calls read": n_built})
 
 
 def _is_interventions(slot) -> bool:
